@@ -79,3 +79,34 @@ Theorem C11_bet_f32_is_floor : forall pot num den,
   BetF32.bet_f32 pot num den = Game.bet_of_odds pot num den.
 Proof. exact C11_BetF32.bet_is_floor. Qed.
 Print Assumptions C11_bet_f32_is_floor.
+
+(* ===== the menu fits the 64-bit Path form ===== *)
+From RP Require Spec.SpecCodec Proofs.C11_Pack.
+(* every menu the engine produces at a reachable decision node has at most 16 edges, each one an
+   edge of the abstraction: exactly the hypotheses of the Path codec theorem C15_path ... *)
+Theorem C11_menu_packs : forall d hs g n i es,
+  wf_holes d hs -> reachable d hs g -> turn_of g = Choice i -> 0 <= n -> choices g n = Some es ->
+  (length es <= 16)%nat /\ Forall (fun e => In e SpecCodec.all_edges) es.
+Proof. exact C11_Pack.menu_packs. Qed.
+Print Assumptions C11_menu_packs.
+(* ... in fact at any state and raise count for which Game::choices does not panic *)
+Theorem C11_choices_pack : forall g n es, choices g n = Some es ->
+  (length es <= 16)%nat /\ Forall (fun e => In e SpecCodec.all_edges) es.
+Proof. exact C11_Pack.choices_pack. Qed.
+Print Assumptions C11_choices_pack.
+(* ... so the menu round-trips through Path (u64): C15_path instantiated *)
+Theorem C11_menu_path_roundtrip : forall d hs g n i es,
+  wf_holes d hs -> reachable d hs g -> turn_of g = Choice i -> 0 <= n -> choices g n = Some es ->
+  exists p, path_pack es = Some p /\ (p < 2 ^ 64)%N /\ path_unpack p = Some es.
+Proof. exact C11_Pack.menu_path_roundtrip. Qed.
+Print Assumptions C11_menu_path_roundtrip.
+(* hypotheses satisfiable: C11_hyps_menu above (the root, whose menu has 13 edges) *)
+Example C11_hyps_pack :
+  exists g0 es, root Standard ex_holes = Some g0 /\ reachable Standard ex_holes g0 /\
+    turn_of g0 = Choice 1 /\ choices g0 0 = Some es /\ length es = 13%nat /\
+    path_pack es = Some 639910880647286%N.
+Proof.
+  destruct ex_menu_root as (g0 & Hr & Hre & Ht & Hc & _).
+  exists g0. eexists. split; [exact Hr|]. split; [exact Hre|]. split; [exact Ht|].
+  split; [exact Hc|]. split; vm_compute; reflexivity.
+Qed.
